@@ -18,9 +18,12 @@ PartR == <<NText("[r:"), Include(S("p"), "none", NilE, "", <<>>), NText("]")>>
 PartS == <<NOut(P(VP("forloop", "index"))), NText(":"), NOut(P(V("s"))), NOut(P(V("v"))), Assign("v", P(I(1))), Incr("k"),
            Cycle("", <<S("a"), S("b")>>, "|a,b"), NText(";")>>
 PartB == <<NText("b1"), Break, NText("b2")>>
+\* a loop inside a partial: its parentloop must not be the caller's loop when rendered
+FLP == [k |-> "var", segs |-> <<[t |-> "k", v |-> "forloop"], [t |-> "k", v |-> "parentloop"], [t |-> "k", v |-> "index"]>>]
+PartL == <<NText("[l:"), For("j", RangeE(I(1), I(2)), "(1..2)", NoOpt, NoOpt, FALSE, <<NOut(P(VP("forloop", "index"))), NText("<"), NOut(P(FLP)), NText(">")>>, NoElse), NText("]")>>
 Boom == NOut(F(I(1), <<Fl("divided_by", <<I(0)>>)>>))       \* raises LiquidTypeError
 PartE == <<NText("[e:"), Assign("y", P(S("E"))), Boom, NText("]")>>
-MCPartials == << <<"p", PartP>>, <<"q", PartQ>>, <<"r", PartR>>, <<"s", PartS>>, <<"b", PartB>>, <<"e", PartE>> >>
+MCPartials == << <<"p", PartP>>, <<"q", PartQ>>, <<"r", PartR>>, <<"s", PartS>>, <<"b", PartB>>, <<"e", PartE>>, <<"l", PartL>> >>
 
 MCData == { << <<<<"x", vx>>, <<"y", Str("Y")>>, <<"arr", Arr(<<IntV(1), IntV(2)>>)>>, <<"n", Str("p")>>>>, <<>>, <<>>, <<>> >>
               : vx \in {Str("X")} }
@@ -66,6 +69,11 @@ Blocks == {With(<<WArg("x", I(1)), WArg("w", Y)>>, <<NOut(P(X)), Assign("x", P(I
            Include(S("e"), "with", X, "", <<WArg("z", I(1))>>), RenderT(S("e"), "for", V("arr"), "", <<>>),
            Macro("bm", <<Param("x")>>, <<NOut(P(X)), Boom>>), Call("bm", <<I(1)>>, <<>>),
            Capture("z", <<NText("c"), Boom>>),
+           For("i", V("arr"), "arr", NoOpt, NoOpt, FALSE, <<RenderT(S("l"), "none", NilE, "", <<>>)>>, NoElse),
+           For("i", V("arr"), "arr", NoOpt, NoOpt, FALSE, <<Include(S("l"), "none", NilE, "", <<>>)>>, NoElse),
+           Macro("lm", <<>>, PartL),
+           For("i", V("arr"), "arr", NoOpt, NoOpt, FALSE, <<Call("lm", <<>>, <<>>)>>, NoElse),
+           RenderT(S("l"), "for", V("arr"), "", <<>>),
            MacroM, MacroI,
            Call("m", <<>>, <<>>), Call("m", <<I(1)>>, <<>>), Call("m", <<I(1), I(2), I(3)>>, <<>>),
            Call("m", <<X>>, <<WArg("w", Z)>>), Call("m", <<I(1)>>, <<WArg("x", I(2)), WArg("u", I(3))>>),
